@@ -1,8 +1,38 @@
 package logger
 
 import (
+	"time"
+
+	formatter "github.com/antonfisher/nested-logrus-formatter"
 	"github.com/sirupsen/logrus"
 )
 
+var log *logrus.Logger
+
 // AperLog : Log entry of aper
 var AperLog *logrus.Entry
+
+func init() {
+	log = logrus.New()
+	log.SetReportCaller(false)
+
+	log.Formatter = &formatter.Formatter{
+		TimestampFormat: time.RFC3339,
+		TrimMessages:    true,
+		NoFieldsSpace:   true,
+		HideKeys:        true,
+		FieldsOrder:     []string{"component", "category"},
+	}
+
+	AperLog = log.WithFields(logrus.Fields{"component": "LIB", "category": "Aper"})
+}
+
+func SetLogLevel(level logrus.Level) {
+	AperLog.Infoln("set log level :", level)
+	log.SetLevel(level)
+}
+
+func SetReportCaller(bool bool) {
+	AperLog.Infoln("set report call :", bool)
+	log.SetReportCaller(bool)
+}
